@@ -7198,9 +7198,10 @@ impl<'a> Tyck<'a> for TyEnvT<su::TermId> {
                 let mut matchers = Vec::new();
                 let mut arms_ty = Vec::new();
                 for su::Matcher { binder, tail } in arms {
-                    let binder_elaboration = self
-                        .mk(binder)
-                        .tyck_k(tycker, PatternAction::ana(scrut_ty_unroll.into()))?;
+                    // Patterns that need the representation unroll the type themselves; a
+                    // variable or wildcard arm binds the scrutinee at its own (sealed) type.
+                    let binder_elaboration =
+                        self.mk(binder).tyck_k(tycker, PatternAction::ana(scrut_ty.into()))?;
                     let (binder, _ty) = binder_elaboration.try_as_value(
                         tycker,
                         TyckError::SortMismatch,
